@@ -49,7 +49,7 @@ NewLink == [ech |-> -1, pch |-> -1, eh |-> -1, ph |-> -1, name |-> "", eutSender
 InitState == [side |-> "client", sc |-> 0, last |-> "Init", now |-> 0,
   \* connection
   ehdr |-> FALSE, eframes |-> 0, eopens |-> 0, ecloses |-> 0, ecloseErr |-> FALSE, eeof |-> FALSE,
-  phdr |-> "none", popen |-> FALSE, pclose |-> FALSE, pcloseErr |-> "", pcloseHeard |-> FALSE, peof |-> FALSE, illegal |-> FALSE, garbage |-> FALSE, noise |-> FALSE,
+  phdr |-> "none", popen |-> FALSE, pclose |-> FALSE, pcloseErr |-> "", pcloseHeard |-> FALSE, peof |-> FALSE, illegal |-> FALSE, garbage |-> FALSE, noise |-> FALSE, roomy |-> FALSE, appCloseErr |-> FALSE,
   oblClose |-> FALSE, openRet |-> "none", closeRet |-> "none", hook |-> FALSE, tol |-> 2, timedOut |-> FALSE, panics0 |-> -1, lidle |-> -1, shutAfterIllegal |-> FALSE, illegalWhat |-> "", deadAt |-> 0, callAt |-> <<>>, appTeardown |-> FALSE, lastAlive |-> 0, lastPending |-> 0, badAttach |-> "-", badAttachPending |-> FALSE,
   emfs |-> 512, pmfs |-> 512, echmax |-> 65535, pchmax |-> 65535, eidle |-> -1, pidle |-> -1, lastE |-> 0, lastP |-> 0, openAt |-> -1,
   ss |-> <<>>, ls |-> <<>>, pendCfg |-> <<>>, pendSess |-> <<>>]
@@ -103,6 +103,9 @@ H_EOpen(s, r, l) == R([s EXCEPT !.eopens = @ + 1, !.emfs = r.f.mfs, !.echmax = r
                       Chk("C12_OpenOnceFirst", s.eopens = 0 /\ r.ch = 0, l, "open"))
 H_EClose(s, r, l) == R([s EXCEPT !.ecloses = @ + 1, !.ecloseErr = (r.f.err # ""), !.oblClose = FALSE],
                        Chk("C12_CloseAtMostOnce", s.ecloses = 0, l, "")
+                       \* the endpoint closes the connection with an error of its own only for a reason: a frame it may not accept,
+                       \* undecodable input, an idle time-out, or because the application asked for it
+                     + Chk("C12_NoSpontaneousError", r.f.err = "" \/ s.illegal \/ s.garbage \/ s.noise \/ s.appCloseErr \/ s.lidle > 0 \/ s.pclose \/ s.peof, l, r.f.err)
                        \* the peer's close is answered only after what had been handed over before has been written
                      + Chk("C12_FlushBeforeClose", ~(s.pclose /\ s.ecloses = 0 /\ ~s.illegal /\ ~s.garbage /\ ~s.appTeardown /\ r.f.err = "")
                                                    \/ \A k \in DOMAIN s.ls : ~(s.ls[k].eutSender /\ s.ls[k].pAtt /\ ~s.ls[k].pDet /\ ~s.ls[k].eDet
@@ -186,7 +189,7 @@ H_ETransfer(s, r, l) ==
          Chk("C07_WindowSafety", strictOK, l, IF devOK THEN "dev_ok" ELSE "dev_bad")
        + Chk("C11_DeliveryIdIncreasing", ~first \/ (f.did >= 0 /\ f.did > x.lastDid), l, "")
        + Chk("C11_ContinuationId", first \/ f.did = -1 \/ f.did = y.curDid, l, "")
-       + Chk(IF y.cancels > 0 THEN "C16_NeverPartial" ELSE "C11_DeliveryAbandoned", ~abandoned, l, "")
+       + Chk(IF y.cancels > 0 THEN "C16_NeverPartial" ELSE "C11_DeliveryAbandoned", ~abandoned, l, IF y.cancels > 0 /\ s.roomy THEN "roomy" ELSE "")
        + Chk("C08_SenderRole", y.eutSender, l, "")
        + Chk("C08_WithinCredit", ~first \/ (y.limit >= 0 /\ y.dcS < y.limit), l, "")
        + Chk("C01_PayloadContinuity", r.pl.ok, l, "")
@@ -397,7 +400,9 @@ SessName(scope) == scope      \* the scope string of a session call ("s:<name>")
 LinkByName(s, name, wantSender) == LastIdx(s.ls, LAMBDA y : y.name = name /\ y.eAtt /\ y.eutSender = wantSender)
 
 H_ApiCall(s, r, l) ==
-  IF r.op \in {"open", "accept"} THEN R([s EXCEPT !.openRet = "pending", !.lidle = IF "idle" \in DOMAIN r.args THEN r.args.idle ELSE -1], 0)
+  \* roomy: the channels between link, session and connection are not configured down to a handful of slots
+  IF r.op \in {"open", "accept"} THEN R([s EXCEPT !.openRet = "pending", !.lidle = IF "idle" \in DOMAIN r.args THEN r.args.idle ELSE -1,
+                                                    !.roomy = ~("buf" \in DOMAIN r.args /\ r.args.buf < 64)], 0)
   ELSE IF r.op \in {"begin", "accept_session"} THEN R([s EXCEPT !.pendSess = Append(@, r.scope)], 0)
   ELSE IF r.op \in {"attach_receiver", "accept_link"} THEN R([s EXCEPT !.pendCfg = Append(@, [name |-> r.lname, credit |-> IF "credit" \in DOMAIN r.args THEN r.args.credit ELSE -1,
                                                                                                  autoAcc |-> IF "auto_accept" \in DOMAIN r.args THEN r.args.auto_accept ELSE FALSE])], 0)
@@ -615,14 +620,15 @@ Step(s, r, l) ==
       [] r.ev = "PRaw" -> R([s EXCEPT !.garbage = TRUE], 0)
       [] r.ev = "PEof" -> R([s EXCEPT !.peof = TRUE, !.deadAt = IF @ = 0 THEN l ELSE @], 0)
       [] r.ev = "PReset" -> R([s EXCEPT !.peof = TRUE, !.deadAt = IF @ = 0 THEN l ELSE @], 0)
-      [] r.ev = "ApiCall" -> H_ApiCall([s EXCEPT !.callAt = Append(@, [call |-> r.call, line |-> l, op |-> r.op, of |-> r.of]), !.appTeardown = (@ \/ r.op \in {"close", "end", "detach", "close_link"})], r, l)
+      [] r.ev = "ApiCall" -> H_ApiCall([s EXCEPT !.callAt = Append(@, [call |-> r.call, line |-> l, op |-> r.op, of |-> r.of]), !.appTeardown = (@ \/ r.op \in {"close", "end", "detach", "close_link"}),
+                                                                  !.appCloseErr = (@ \/ (r.op = "close" /\ "err" \in DOMAIN r.args /\ r.args.err # ""))], r, l)
       [] r.ev = "ApiDrop" -> R([s EXCEPT !.appTeardown = TRUE], 0)
       [] r.ev = "ApiRet" -> LET h == H_ApiRet(s, r, l) IN R(h.s, h.f + FailureClauses(s, r, l))
       [] r.ev = "Quiesce" -> H_Quiesce(s, r, l)
       [] r.ev = "End" -> R(s, Chk("C15_IllegalHandled", ~s.illegal \/ s.shutAfterIllegal, l, s.illegalWhat) + Chk("C15_NoHang", Len(r.pending) = 0 \/ ~(s.peof \/ s.pclose \/ s.eeof), l, "") + Chk("C15_NoPanic", r.panics = s.panics0 \/ s.panics0 < 0, l, "end")
                               + PendingClauses(s, r, l)
                               \* cancellation never leaves half a delivery on the wire nor a complete delivery undelivered
-                              + Chk("C16_NeverPartial", ~ConnUp(s) \/ \A k \in DOMAIN s.ls : ~(s.ls[k].eutSender /\ LinkLiveE(s.ls[k]) /\ ~s.ls[k].pDet /\ s.ls[k].inDel /\ s.ls[k].cancels > 0), l, "")
+                              + Chk("C16_NeverPartial", ~ConnUp(s) \/ \A k \in DOMAIN s.ls : ~(s.ls[k].eutSender /\ LinkLiveE(s.ls[k]) /\ ~s.ls[k].pDet /\ s.ls[k].inDel /\ s.ls[k].cancels > 0), l, IF s.roomy THEN "roomy" ELSE "")
                               + Chk("C16_NoLoss", ~ConnUp(s) \/ \A k \in DOMAIN s.ls : ~(~s.ls[k].eutSender /\ LinkLiveE(s.ls[k]) /\ ~s.ls[k].pDet /\ ~s.ls[k].broken /\ \E n \in DOMAIN s.ls[k].inq : Eligible(s.ls[k].inq[n])), l, "")
                               + Chk("C14_TasksEnd", ~ConnDead(s) \/ s.lastAlive <= Len(r.pending), l, ""))
       [] r.ev = "Spin" -> R(s, Fail("C15_Quiesces", l, "spin"))
